@@ -70,7 +70,8 @@ def handleC18 (inp obs : List String) : Verdict :=
     let s3 := sm.insert probe
     let nontrivial := touches supplied && hasMerge ops
     let classes := overlapClasses (canonIv supplied) ++ (if hasMerge ops then ["history-has-merge"] else []) ++
-      (if (ops.dropWhile (fun | .merge => false | _ => true)).any (fun | .insert _ => true | _ => false) then ["insert-after-merge"] else [])
+      (if (ops.dropWhile (fun | .merge => false | _ => true)).any (fun | .insert _ => true | _ => false) then ["insert-after-merge"] else []) ++
+      (if topOfRange supplied then ["top-of-range"] else [])
     match o with
     | none => { kind := "specfail", nontrivial, classes, detail := "implementation panicked" }
     | some o =>
@@ -139,7 +140,8 @@ def handleC19 (inp obs : List String) : Verdict :=
       (if canonSE (se sa) == canonSE (se sb) && !sa.isEmpty then ["identical-sets"] else []) ++
       (if !sa.isEmpty && !sb.isEmpty && max (maxStop sa) (maxStop sb) ≤ specLimit && interCount sa sb == 0 then ["disjoint"] else []) ++
       (if (oa ++ ob).any (fun | .setCov => true | _ => false) && (oa.reverse.takeWhile (fun | .setCov => false | _ => true)).any (fun | .insert _ => true | .merge => true | _ => false) then ["set-cov-then-mutation"] else []) ++
-      (if endsMerged oa then [] else [])
+      (if endsMerged oa then [] else []) ++
+      (if topOfRange sa || topOfRange sb then ["top-of-range"] else [])
     match o with
     | none => { kind := "specfail", nontrivial, classes, detail := "implementation panicked" }
     | some o =>
@@ -176,7 +178,8 @@ def handleC20 (inp obs : List String) : Verdict :=
     let stored := if hasMerge ops then s.intervals.toList else suppliedOf init ops
     let nontrivial := touches stored
     let classes := overlapClasses (canonIv stored) ++ (if hasMerge ops then ["after-merge"] else []) ++
-      (if maxStop stored > specLimit then ["large-offset"] else [])
+      (if maxStop stored > specLimit then ["large-offset"] else []) ++
+      (if topOfRange stored then ["top-of-range"] else [])
     match o with
     | none => { kind := "specfail", nontrivial, classes, detail := s!"depth() panicked on {showIvs stored}" }
     | some runs =>
